@@ -536,7 +536,7 @@ class C15(Check):
             p.update({"dim": dim, "shape": list(rng.choice(SHAPES[dim])), "vector": dim == 3 and rng.random() < 0.5, "view": rng.choice(["plain", "component", "inplace"])})
         else:
             dim = rng.choice([2, 3])
-            p.update({"dim": dim, "shape": list(rng.choice(SIM_SHAPES[dim])), "reset": rng.random() < 0.5, "n_markers": rng.choice([3, 8]), "evals": 2})
+            p.update({"dim": dim, "shape": list(rng.choice(SIM_SHAPES[dim])), "reset": rng.random() < 0.5, "n_markers": rng.choice([3, 8, 8, 2500, 4100]), "evals": 2})
         return p
 
     # ------------------------------------------------------------------ execute
@@ -746,23 +746,58 @@ class C15(Check):
             yield c
 
 
-_prange_state = {"mode": "identity", "rng": None, "used": 0}
+_prange_state = {"mode": "identity", "rng": None, "used": 0, "parallel": [False]}
 
 
 def sim_prange(*args):
-    """Stand-in for numba.prange when numba runs un-jitted: a seeded permuted range."""
+    """Stand-in for numba.prange when numba runs un-jitted.
+
+    Inside a function compiled with parallel=True the iterations of a prange loop have no
+    defined order: the simulator runs them in a seeded permuted order.  Without
+    parallel=True numba executes prange exactly like range, and so does the simulator.
+    """
     r = list(range(*args))
-    _prange_state["used"] = _prange_state.get("used", 0) + 1
-    if _prange_state["mode"] == "permuted" and _prange_state["rng"] is not None:
-        _prange_state["rng"].shuffle(r)
+    if _prange_state["parallel"][-1]:
+        _prange_state["used"] = _prange_state.get("used", 0) + 1
+        if _prange_state["mode"] == "permuted" and _prange_state["rng"] is not None:
+            _prange_state["rng"].shuffle(r)
     return r
 
 
+def _sim_jit(*args, **kwargs):
+    """numba.njit / numba.jit with JIT disabled, remembering the `parallel` option."""
+    import functools
+
+    parallel = bool(kwargs.get("parallel", False))
+
+    def deco(fn):
+        if not parallel:
+            return fn
+
+        @functools.wraps(fn)
+        def run(*a, **k):
+            _prange_state["parallel"].append(True)
+            try:
+                return fn(*a, **k)
+            finally:
+                _prange_state["parallel"].pop()
+
+        return run
+
+    if len(args) == 1 and callable(args[0]) and not kwargs:
+        return args[0]
+    if args and callable(args[0]):
+        return deco(args[0])
+    return deco
+
+
 def install_numba_seam():
-    """Must run before sopht (and numba users) are imported."""
+    """Must run before sopht (and other numba users) are imported."""
     import numba
 
     numba.prange = sim_prange
+    numba.njit = _sim_jit
+    numba.jit = _sim_jit
 
 
 CHECK = C15()
